@@ -462,7 +462,10 @@ def run_history(expr, events, want_fresh=True):
                     if d[0] in ("add_low_rank", "cat_rows"):
                         stp["roots_compatible"] = roots_compatible(w, i, d)
                         pk = rec["steps"][-1]["keys"][i] if rec["steps"] and i < len(rec["steps"][-1]["keys"]) else []
-                        stp["root_route"] = root_route(pk, d, cur, int(w.objs[i].shape[-1]))
+                        pks = rec["steps"][-1]["keys"] if rec["steps"] else []
+                        desc = [w.ids[id(x_)] for x_ in W.reachable(w.objs[i])[1:] if id(x_) in w.ids]
+                        stp["root_route"] = root_route(pk, d, cur, int(w.objs[i].shape[-1]),
+                                                       [pks[c_] for c_ in desc if c_ < len(pks)])
                         if stp["roots_compatible"] == "incompatible" and stp["root_route"] == "computed-together" and want_fresh:
                             stp["fresh_derive_bad"] = fresh_derive_bad(w, i, d, si)
                     stp["profiles"] = w.profiles(new)
@@ -659,7 +662,7 @@ def counterfactual_query(w, i, q, si, cache, asp):
         return None
 
 
-def root_route(prev_keys, d, cur, n):
+def root_route(prev_keys, d, cur, n, kid_keys=()):
     """how the (root, inverse root) pair of a transplanting derivation came about:
        cached-before           one of the two requests was already answered from the cache (computed earlier, possibly
                                by another method / under other settings / as a Lanczos by-product)
@@ -676,6 +679,9 @@ def root_route(prev_keys, d, cur, n):
         ki = ["full", ["str", "root_inv_decomposition"], [], []]
     if kr in prev_keys or ki in prev_keys:
         return "cached-before"
+    if any(k_[0] == "full" and k_[1] in (["str", "root_decomposition"], ["str", "root_inv_decomposition"])
+           for ks_ in kid_keys for k_ in ks_):
+        return "cached-before"      # on a factor / base operator the class delegates to
     e1 = m1[1] if m1[0] == "str" else None
     e2 = m2[1] if m2[0] == "str" else None
     if e1 != e2 and not ({e1, e2} <= {"symeig", "svd"}):
@@ -1090,7 +1096,7 @@ def problems_of(label, rec):
                     explicit = v_[1]
         by_choice = (chosen is not None and ev[0] in ("q", "d")
                      and op in ("root_decomposition", "root_inv_decomposition", "sample", "add_low_rank", "cat_rows")
-                     and explicit in (None, "pinverse"))
+                     and explicit in (None, "pinverse", chosen))
         choice_cause = None
         for (xc, xw) in stp.get("extra", []):
             # direct predicates about facets the model abstracts from (never arbitrated by the model)
